@@ -88,7 +88,10 @@ func (w *World) execC19(st *Step) (res StepResult) {
 		}
 	case "ops":
 		for user, op := range []operationInterface{cell.op1, cell.op2} {
-			sd := w.Client(user).Docs[0]
+			// user selects the operation's range (upstream's convention); the AUTHOR is
+			// client user, or with J=1 the other one (then the second operation is made by
+			// the client with the smaller id)
+			sd := w.Client(user ^ (st.J & 1)).Docs[0]
 			sink := &assertSink{}
 			if got := sd.Doc.Root().GetTree("t").ToXML(); got != cell.xml {
 				res.Out = "err"
@@ -170,13 +173,16 @@ func c19Config(r *rand.Rand) *RunConfig {
 	if n == 0 {
 		n = 1
 	}
-	cell, order := r.IntN(n), r.IntN(2)
+	cell, order, swap := r.IntN(n), r.IntN(2), r.IntN(2)
 	if CurrentIndex >= 0 {
-		// the matrix is swept by run index: every cell, both sync orders
-		cell, order = CurrentIndex%n, (CurrentIndex/n)%2
+		// the matrix is swept by run index: every cell, both sync orders, and both
+		// assignments of the two operations to the two clients (the operations carry equal
+		// lamports, so the AUTHOR decides which one is later: upstream's test leaves that to
+		// random actor ids, here client 0's id is always the smaller one)
+		cell, order, swap = CurrentIndex%n, (CurrentIndex/n)%2, (CurrentIndex/(2*n))%2
 	}
 	return &RunConfig{Clients: 3, Docs: 1, Projects: 1, Steps: 16, SnapshotThreshold: 4, SnapshotInterval: 1000, SnapshotCacheSize: 10,
-		Extra: map[string]int{"cell": cell, "order": order, "cells": n}}
+		Extra: map[string]int{"cell": cell, "order": order, "cells": n, "swap": swap}}
 }
 
 // c19Next is a fixed script: the cell and the sync order are the only choices.
@@ -190,7 +196,7 @@ func c19Next(rc *RunCtx) *Step {
 		{Op: "activate", C: 0}, {Op: "activate", C: 1}, {Op: "activate", C: 2},
 		{Op: "attach", C: 0, Opts: &AttachOp{}}, {Op: "attach", C: 1, Opts: &AttachOp{}},
 		{Op: "c19", Flag: "init", I: cell}, {Op: "sync", C: 0}, {Op: "sync", C: 1},
-		{Op: "c19", Flag: "ops", I: cell},
+		{Op: "c19", Flag: "ops", I: cell, J: rc.Cfg.Extra["swap"]},
 		{Op: "sync", C: a}, {Op: "sync", C: b}, {Op: "sync", C: a},
 		{Op: "attach", C: 2, Opts: &AttachOp{}}, // five changes behind a threshold of four: fed by snapshot
 		{Op: "c19", Flag: "third", I: cell},
